@@ -16,6 +16,7 @@ import (
 	"encoding/hex"
 	"fmt"
 	"math/big"
+	"strings"
 	"sync"
 	"testing"
 
@@ -24,8 +25,10 @@ import (
 	"github.com/cloudflare/circl/hpke"
 	"github.com/cloudflare/circl/kem"
 	"github.com/cloudflare/circl/kem/schemes"
+	"github.com/cloudflare/circl/zz_verif/ref/mlkem"
 	"github.com/cloudflare/circl/zz_verif/ref/mont"
 	"github.com/cloudflare/circl/zz_verif/vlib"
+	"golang.org/x/crypto/sha3"
 	"pgregory.net/rapid"
 )
 
@@ -39,6 +42,12 @@ func selftest(t *testing.T) {
 		stErr = mont.SelfTest(vlib.Harness+"/zz_verif/ref/mont/testdata", vlib.Thorough() && vlib.Shard == 0 && vlib.Config == "default")
 		if stErr == nil {
 			stErr = lowOrderSelfTest()
+		}
+		if stErr == nil {
+			stErr = xwingSelfTest()
+		}
+		if stErr == nil {
+			vlib.Selftest("X-Wing reference (ref/mlkem + ref/mont + x/crypto sha3) vs SHAKE128 digest of the specification's test-vectors.txt", "ok")
 		}
 		if stErr == nil {
 			vlib.Selftest("ref/mont vs RFC 7748 section 5.2 and 6 vectors (iterated 1000x in the thorough tier), low-order list", "ok")
@@ -108,7 +117,7 @@ func pick(t *rapid.T, n int, label string) int {
 func drawScalar(t *rapid.T, c *mont.Curve, label string) ([]byte, string) {
 	n := c.Size
 	k := make([]byte, n)
-	kinds := []string{"zero", "one", "top-bit-254", "all-ones", "clamp-sensitive", "clamp-sensitive", "single-bit", "random", "random", "random"}
+	kinds := []string{"zero", "one", "top-bit-254", "all-ones", "clamp-sensitive", "clamp-sensitive", "single-bit", "base-point-preimage", "random", "random", "random"}
 	kind := kinds[pick(t, len(kinds), label+".kind")]
 	switch kind {
 	case "zero":
@@ -132,13 +141,30 @@ func drawScalar(t *rapid.T, c *mont.Curve, label string) ([]byte, string) {
 	case "single-bit":
 		i := rapid.IntRange(0, 8*n-1).Draw(t, label+".bit")
 		k[i/8] = 1 << (i % 8)
+	case "base-point-preimage":
+		// KeyGen(k) is the base point (u = 9 resp. 5): the one tiny public key with a known scalar
+		pre := basePreimages(c)
+		if len(pre) == 0 {
+			vlib.FillRandom(t, k, label)
+			break
+		}
+		copy(k, pre[pick(t, len(pre), label+".pre")])
+		// bits the clamping ignores may be anything
+		if rapid.Bool().Draw(t, label+".unclamped") {
+			if n == 32 {
+				k[0] |= byte(pick(t, 8, label+".low"))
+				k[31] ^= 0x80
+			} else {
+				k[0] |= byte(pick(t, 4, label+".low"))
+			}
+		}
 	default:
 		vlib.FillRandom(t, k, label)
 	}
 	return k, kind
 }
 
-var uKinds = []string{"zero", "one", "p-1", "p", "p+1", "low-order", "low-order", "low-order+alias", "p+small", "all-ones", "small", "near-p", "limb-edge", "twist", "curve", "noncanonical-random", "random", "random"}
+var uKinds = []string{"tiny-output-preimage", "tiny-output-preimage", "zero", "one", "p-1", "p", "p+1", "low-order", "low-order", "low-order+alias", "p+small", "all-ones", "small", "near-p", "limb-edge", "twist", "curve", "noncanonical-random", "random", "random"}
 
 func drawU(t *rapid.T, c *mont.Curve, label string) ([]byte, string) {
 	n := c.Size
@@ -147,6 +173,8 @@ func drawU(t *rapid.T, c *mont.Curve, label string) ([]byte, string) {
 	width := new(big.Int).Lsh(one, uint(8*n))
 	var v *big.Int
 	switch kind {
+	case "tiny-output-preimage":
+		v = big.NewInt(0) // replaced by the caller, who knows the scalar
 	case "zero":
 		v = big.NewInt(0)
 	case "one":
@@ -217,6 +245,144 @@ func drawU(t *rapid.T, c *mont.Curve, label string) ([]byte, string) {
 	}
 	v.Mod(v, width)
 	return vlib.LE(v, n), kind
+}
+
+// ---------------------------------------------------------------------------
+// outputs with two representatives
+//
+// The functions end in a final reduction: a result v < 2^255-p = 19 (X25519) resp.
+// v < 2^448-p = 2^224+1 (X448) also fits the output width as v+p, and only the final
+// reduction tells them apart. Random inputs produce such results with probability
+// 2^-251 / 2^-224, so they are constructed: for a tiny u0 that is the u-coordinate of a
+// point Q of prime order n (on the curve or on the twist) and any scalar k, the peer
+// value u([s^-1 mod n]Q), s = clamp(k), gives X(k, .) = u0. For KeyGen the only
+// reachable tiny result is the base point itself: scalars a = j*l +- 1 that are fixed
+// by the clamping. The expectation is, as always, the reference's output.
+
+type tinyPoint struct {
+	u *big.Int
+	n *big.Int // odd prime order of the subgroup the point lies in
+}
+
+var (
+	tinyMu   sync.Mutex
+	tinyList = map[string][]tinyPoint{}
+	preimg   = map[string][][]byte{}
+)
+
+func groupOrders(c *mont.Curve) (l, lTwist *big.Int, cof int64) {
+	two := big.NewInt(2)
+	if c.Bits == 255 {
+		l = new(big.Int).Lsh(big.NewInt(1), 252)
+		d, _ := new(big.Int).SetString("27742317777372353535851937790883648493", 10)
+		l.Add(l, d)
+		cof = 8
+	} else {
+		l = new(big.Int).Lsh(big.NewInt(1), 446)
+		d, _ := new(big.Int).SetString("8335dc163bb124b65129c96fde933d8d723a70aadc873d6d54a7bb0d", 16)
+		l.Sub(l, d)
+		cof = 4
+	}
+	// #E + #E' = 2p + 2; the twist has cofactor 4 on both curves
+	t := new(big.Int).Mul(c.P, two)
+	t.Add(t, two)
+	t.Sub(t, new(big.Int).Mul(l, big.NewInt(cof)))
+	lTwist = t.Div(t, big.NewInt(4))
+	return
+}
+
+// twoRepBound is 2^width - p: results below it have a second representative.
+func twoRepBound(c *mont.Curve) *big.Int {
+	w := new(big.Int).Lsh(big.NewInt(1), uint(c.Bits))
+	if c.Bits == 448 {
+		w = new(big.Int).Lsh(big.NewInt(1), 448)
+	}
+	return w.Sub(w, c.P)
+}
+
+func tinyPoints(c *mont.Curve) []tinyPoint {
+	tinyMu.Lock()
+	defer tinyMu.Unlock()
+	if l := tinyList[c.Name]; l != nil {
+		return l
+	}
+	l, lt, _ := groupOrders(c)
+	var out []tinyPoint
+	try := func(u *big.Int) {
+		n := lt
+		if c.OnCurve(u) {
+			n = l
+		}
+		if c.Ladder(n, u).Sign() == 0 && u.Sign() != 0 {
+			out = append(out, tinyPoint{u: new(big.Int).Set(u), n: n})
+		}
+	}
+	if c.Bits == 255 {
+		for v := int64(2); v < 19; v++ {
+			try(big.NewInt(v))
+		}
+	} else {
+		for v := int64(2); v < 40 && len(out) < 6; v++ {
+			try(big.NewInt(v))
+		}
+		// larger values of the two-representative range, derived from the run's seed
+		b := make([]byte, 28)
+		for i := 0; len(out) < 12 && i < 200; i++ {
+			vlib.ExpandInto(b, uint64(vlib.Seed)*7919+uint64(i))
+			v := vlib.FromLE(b)
+			if i%3 == 0 {
+				v.Rsh(v, uint(8*(i%20)))
+			}
+			try(v)
+		}
+	}
+	tinyList[c.Name] = out
+	return out
+}
+
+// basePreimages lists the scalars (already in clamped form) whose public key is the base point.
+func basePreimages(c *mont.Curve) [][]byte {
+	tinyMu.Lock()
+	defer tinyMu.Unlock()
+	if l := preimg[c.Name]; l != nil {
+		return l
+	}
+	l, _, _ := groupOrders(c)
+	var out [][]byte
+	for j := int64(1); j <= 16; j++ {
+		for _, sgn := range []int64{1, -1} {
+			a := new(big.Int).Mul(l, big.NewInt(j))
+			a.Add(a, big.NewInt(sgn))
+			if a.BitLen() > 8*c.Size {
+				continue
+			}
+			b := vlib.LE(a, c.Size)
+			if c.DecodeScalar(b).Cmp(a) == 0 {
+				out = append(out, b)
+			}
+		}
+	}
+	preimg[c.Name] = out
+	return out
+}
+
+// tinyOutputPeer returns a peer value P with X(k, P) = u0 for a drawn tiny u0.
+func tinyOutputPeer(t *rapid.T, c *mont.Curve, k []byte, label string) []byte {
+	pts := tinyPoints(c)
+	if len(pts) == 0 {
+		return append([]byte{}, c.Base...)
+	}
+	q := pts[pick(t, len(pts), label+".tiny")]
+	s := c.DecodeScalar(k)
+	sinv := new(big.Int).ModInverse(new(big.Int).Mod(s, q.n), q.n)
+	if sinv == nil {
+		return append([]byte{}, c.Base...)
+	}
+	v := c.Ladder(sinv, q.u)
+	if c.Bits == 255 && rapid.Bool().Draw(t, label+".bit255") {
+		v.SetBit(v, 255, 1)
+	}
+	return vlib.LE(v, c.Size)
 }
 
 // ---------------------------------------------------------------------------
@@ -324,6 +490,9 @@ func sharedCase(t *rapid.T, c *mont.Curve) {
 	sub := "shared/" + c.Name
 	k, kk := drawScalar(t, c, "k")
 	u, uk := drawU(t, c, "u")
+	if uk == "tiny-output-preimage" {
+		u = tinyOutputPeer(t, c, k, "u")
+	}
 	vlib.Eval(sub)
 	vlib.Class(sub, "k="+kk)
 	vlib.Class(sub, "u="+uk)
@@ -353,7 +522,10 @@ func sharedCase(t *rapid.T, c *mont.Curve) {
 	}
 	if zero {
 		vlib.Class(sub, "output=zero")
+	} else if vlib.FromLE(want).Cmp(twoRepBound(c)) < 0 {
+		vlib.Class(sub, "output-has-two-representatives")
 	}
+
 	if c.OnCurve(c.CanonU(u)) {
 		vlib.Class(sub, "u-on-curve")
 	} else {
@@ -365,6 +537,9 @@ func sharedCase(t *rapid.T, c *mont.Curve) {
 	// key generation == the function at the base point
 	pub := circlKeyGen(c, k, mode, garbage)
 	wantPub := c.XBase(k)
+	if vlib.FromLE(wantPub).Cmp(twoRepBound(c)) < 0 {
+		vlib.Class(sub, "public-key-has-two-representatives")
+	}
 	if !bytes.Equal(pub, wantPub) {
 		if vlib.Report(t, "C06/keygen/"+c.Name+"/differs-from-RFC7748", fmt.Sprintf("k=%x (%s) circl=%x reference=%x", k, kk, pub, wantPub)) {
 			return
@@ -421,6 +596,106 @@ func TestC06Shared(t *testing.T) {
 }
 
 // ---------------------------------------------------------------------------
+// X-Wing reference (draft-connolly-cfrg-xwing-kem): ML-KEM-768 from ref/mlkem,
+// X25519 from ref/mont, SHAKE256 / SHA3-256 from x/crypto. No circl code.
+
+var xwingLabel = []byte{0x5c, 0x2e, 0x2f, 0x2f, 0x5e, 0x5c} // \.//^\
+
+func shake(n int, variant int, in []byte) []byte {
+	h := sha3.NewShake256()
+	if variant == 128 {
+		h = sha3.NewShake128()
+	}
+	h.Write(in)
+	o := make([]byte, n)
+	h.Read(o)
+	return o
+}
+
+// xwingExpand is expandDecapsulationKey: SHAKE256(sk, 96) = d || z || sk_X.
+func xwingExpand(seed []byte) (ekM, dkM, skX, pkX []byte) {
+	e := shake(96, 256, seed)
+	ekM, dkM = mlkem.Get(3, false).KeyGen(e[0:32], e[32:64])
+	skX = e[64:96]
+	pkX = mont.C25519.XBase(skX)
+	return
+}
+
+func xwingCombine(ssM, ssX, ctX, pkX []byte) []byte {
+	h := sha3.New256()
+	h.Write(ssM)
+	h.Write(ssX)
+	h.Write(ctX)
+	h.Write(pkX)
+	h.Write(xwingLabel)
+	return h.Sum(nil)
+}
+
+// xwingDecaps: the X25519 value enters the combiner whatever it is (also all-zero).
+func xwingDecaps(seed, ct []byte) []byte {
+	_, dkM, skX, pkX := xwingExpand(seed)
+	ctM, ctX := ct[:1088], ct[1088:]
+	ssM := mlkem.Get(3, false).Decaps(dkM, ctM)
+	ssX := mont.C25519.X(skX, ctX)
+	return xwingCombine(ssM, ssX, ctX, pkX)
+}
+
+// xwingEncaps is EncapsulateDerand: eseed = m || ek_X.
+func xwingEncaps(pk, eseed []byte) (ct, ss []byte) {
+	pkM, pkX := pk[:1184], pk[1184:]
+	ekX := eseed[32:64]
+	ctX := mont.C25519.XBase(ekX)
+	ssX := mont.C25519.X(ekX, pkX)
+	ssM, ctM := mlkem.Get(3, false).Encaps(pkM, eseed[:32])
+	return append(append([]byte{}, ctM...), ctX...), xwingCombine(ssM, ssX, ctX, pkX)
+}
+
+// xwingSelfTest regenerates spec/test-vectors.txt of the X-Wing specification with the
+// reference and compares its SHAKE128 digest with the published one.
+func xwingSelfTest() error {
+	var w strings.Builder
+	writeHex := func(prefix string, val []byte) {
+		const indent, width = "  ", 74
+		hx := fmt.Sprintf("%x", val)
+		if len(prefix)+len(hx)+5 < width {
+			fmt.Fprintf(&w, "%s     %s\n", prefix, hx)
+			return
+		}
+		fmt.Fprintf(&w, "%s\n", prefix)
+		for len(hx) != 0 {
+			n := width - len(indent)
+			if len(hx) < n {
+				n = len(hx)
+			}
+			fmt.Fprintf(&w, "%s%s\n", indent, hx[:n])
+			hx = hx[n:]
+		}
+	}
+	stream := shake(3*(32+64), 128, nil)
+	for i := 0; i < 3; i++ {
+		seed, eseed := stream[:32], stream[32:96]
+		stream = stream[96:]
+		ekM, _, _, pkX := xwingExpand(seed)
+		pk := append(append([]byte{}, ekM...), pkX...)
+		ct, ss := xwingEncaps(pk, eseed)
+		if ss2 := xwingDecaps(seed, ct); !bytes.Equal(ss, ss2) {
+			return fmt.Errorf("X-Wing reference: decapsulation does not invert encapsulation")
+		}
+		writeHex("seed", seed)
+		writeHex("sk", seed)
+		writeHex("pk", pk)
+		writeHex("eseed", eseed)
+		writeHex("ct", ct)
+		writeHex("ss", ss)
+		w.WriteString("\n")
+	}
+	if got := fmt.Sprintf("%x", shake(32, 128, []byte(w.String()))); got != "1bcd0057d861d6b866239936cadcaeee1ec0164dedc181c386e9e54fe46156fe" {
+		return fmt.Errorf("X-Wing reference: digest of the regenerated test vectors is %s", got)
+	}
+	return nil
+}
+
+// ---------------------------------------------------------------------------
 // consequences
 
 type consumer struct {
@@ -431,6 +706,7 @@ type consumer struct {
 	pkOff  int  // offset of the raw X public key inside the public key
 	skOff  int  // offset of the raw X private key inside the private key
 	errors bool // a false flag must become an error
+	xwing  bool // the value is checked against the X-Wing reference
 	auth   bool
 }
 
@@ -462,10 +738,10 @@ func consumers() []consumer {
 	{
 		s := by("X-Wing")
 		out = append(out, consumer{name: "kem/xwing:X-Wing", s: s, c: mont.C25519, errors: false,
-			ctOff: s.CiphertextSize() - 32, pkOff: s.PublicKeySize() - 32, skOff: -1})
+			ctOff: s.CiphertextSize() - 32, pkOff: s.PublicKeySize() - 32, skOff: -1, xwing: true})
 		h := hpke.KEM_XWING.Scheme()
 		out = append(out, consumer{name: "hpke:X-Wing", s: h, c: mont.C25519, errors: false,
-			ctOff: h.CiphertextSize() - 32, pkOff: h.PublicKeySize() - 32, skOff: -1})
+			ctOff: h.CiphertextSize() - 32, pkOff: h.PublicKeySize() - 32, skOff: -1, xwing: true})
 	}
 	return out
 }
@@ -521,11 +797,12 @@ func consequenceCase(t *rapid.T, cs consumer) {
 		what = "decapsulate"
 	}
 	var gotErr error
+	var gotSS, gotCT, encPk, ct2 []byte
 	switch what {
 	case "decapsulate":
-		ct2 := append([]byte{}, ct...)
+		ct2 = append([]byte{}, ct...)
 		copy(ct2[cs.ctOff:], u)
-		if p, st := vlib.Catch(func() { _, gotErr = s.Decapsulate(sk, ct2) }); p != nil {
+		if p, st := vlib.Catch(func() { gotSS, gotErr = s.Decapsulate(sk, ct2) }); p != nil {
 			vlib.Report(t, "C06/consequence/"+cs.name+"/panic", fmt.Sprintf("u=%x %v\n%s", u, p, st))
 			return
 		}
@@ -538,7 +815,8 @@ func consequenceCase(t *rapid.T, cs consumer) {
 			gotErr = err
 			break
 		}
-		if p, st := vlib.Catch(func() { _, _, gotErr = s.EncapsulateDeterministically(pk2, eseed) }); p != nil {
+		encPk = pkb
+		if p, st := vlib.Catch(func() { gotCT, gotSS, gotErr = s.EncapsulateDeterministically(pk2, eseed) }); p != nil {
 			vlib.Report(t, "C06/consequence/"+cs.name+"/panic", fmt.Sprintf("u=%x %v\n%s", u, p, st))
 			return
 		}
@@ -562,6 +840,28 @@ func consequenceCase(t *rapid.T, cs consumer) {
 		}
 		if vlib.Report(t, "C06/consequence/"+cs.name+"/"+what+"/"+cls, fmt.Sprintf("u=%x (%s) low-order=%v err=%v", u, uk, low, gotErr)) {
 			return
+		}
+	}
+	// X-Wing: no error is not enough — the secret must be the combiner of the specification with
+	// the X25519 value as it is (all-zero for a low-order share), for every u
+	if cs.xwing && gotErr == nil {
+		skb, _ := sk.MarshalBinary()
+		switch what {
+		case "decapsulate":
+			if want := xwingDecaps(skb, ct2); !bytes.Equal(gotSS, want) {
+				if vlib.Report(t, "C06/consequence/"+cs.name+"/decapsulate/secret-differs-from-X-Wing-specification", fmt.Sprintf("seed=%x ct_X=%x (%s) low-order=%v got=%x want=%x", skb, u, uk, low, gotSS, want)) {
+					return
+				}
+			}
+			vlib.Class(sub, "xwing-secret-compared")
+		case "encapsulate":
+			wantCT, wantSS := xwingEncaps(encPk, eseed)
+			if !bytes.Equal(gotCT, wantCT) || !bytes.Equal(gotSS, wantSS) {
+				if vlib.Report(t, "C06/consequence/"+cs.name+"/encapsulate/differs-from-X-Wing-specification", fmt.Sprintf("pk_X=%x (%s) eseed=%x low-order=%v got ss=%x want ss=%x ct equal=%v", u, uk, eseed, low, gotSS, wantSS, bytes.Equal(gotCT, wantCT))) {
+					return
+				}
+			}
+			vlib.Class(sub, "xwing-secret-compared")
 		}
 	}
 	if uk != "random" && uk != "curve" {
